@@ -403,7 +403,8 @@ class _polynomial(_Potential_Function_Base):
 
     :return: derivative of polynomial at `r` """
     r, coefs = self._split_args(args)
-    v = [float(i) * r**float(i-1) * c for (i,c) in enumerate(coefs)][1:]
+    # The constant term does not contribute: skipping it (rather than evaluating 0*r**-1) keeps r = 0 defined.
+    v = [float(i) * r**float(i-1) * c for (i,c) in enumerate(coefs) if i >= 1]
     return sum([0]+v)
 
   def deriv2(self, *args):
@@ -414,7 +415,8 @@ class _polynomial(_Potential_Function_Base):
 
     :return: 2nd derivative of polynomial at `r` """
     r, coefs = self._split_args(args)
-    v = [i * float(i-1) * r**float(i-2) * c for (i,c) in enumerate(coefs)][2:]
+    # Constant and linear terms do not contribute: skipping them keeps r = 0 defined.
+    v = [i * float(i-1) * r**float(i-2) * c for (i,c) in enumerate(coefs) if i >= 2]
     return sum([0]+v)
 
 polynomial = _polynomial()
